@@ -80,6 +80,7 @@ pub fn hl_sets(b: &Bounds) -> Vec<HlSet> {
                 5 => ("F5", fam5(l)),
                 7 => ("F7", fam7(l)),
                 8 => ("F8", fam8(l)),
+                9 => ("F9", fam9(l)),
                 _ => ("F6", fam6(l)),
             };
             // larger alphabets get one character less so that every family costs about the same
